@@ -154,6 +154,44 @@ def run(ctx):
         if not late:
             ctx.ok(R_atomic, {"fn": name, "first_mutation_stmt": first_mut, "tolerated_listfile_maintenance": tolerated})
 
+    # tombstones: a released slot must keep probe chains intact
+    R_tomb = ctx.rule("C06.released-slots-are-tombstoned", "mutators release a hash slot only with the DELETED marker — never by resetting it to never-used, which would cut the probe chain of colliding names", floor=3)
+    for name in ("add_file_data", "remove_file", "rename_file"):
+        f = mpq.fns.get(MUT + name)
+        if f is None or not f.hir:
+            continue
+        rel = 0
+        for x in hirq.walk(f.hir["body"]):
+            if x.get("k") != "assign":
+                continue
+            lr, rr = hirq.render(x["l"]), hirq.render(x["r"])
+            if not re.search(r"hash_table", lr) and not re.search(r"block_index$", lr):
+                continue
+            if re.search(r"EMPTY_NEVER_USED|HashEntry::empty\(\)|empty\(\)|0xFFFFFFFF|4294967295|default\(\)", rr):
+                ctx.bad(R_tomb, "%s|slot-reset-to-never-used" % name, "%s:%d" % (f.file, x["ln"]), "`%s = %s`" % (lr[:60], rr[:40]),
+                        "lookups stop at a never-used slot: files inserted behind this slot in the same probe chain become unreachable after the operation")
+                rel += 1
+            elif re.search(r"EMPTY_DELETED", rr):
+                ctx.ok(R_tomb, {"fn": name, "release": rr})
+                rel += 1
+
+    # FLAG_COMPRESS only for data that actually shrank (shared with C01's threshold rule)
+    R_cflag = ctx.rule("C06.compress-flag-iff-shrunk", "prepare_file_data sets FLAG_COMPRESS only under `compressed.len() < data.len()` (strict)", floor=1)
+    pf = mpq.fns.get(MUT + "prepare_file_data")
+    if pf is not None and pf.hir:
+        from .. import cmpeval
+        for n in hirq.find(pf.hir["body"], "if"):
+            ats = cmpeval.atoms(n["c"])
+            if len(ats) == 2 and any("compressed" in a for a in ats) and "FLAG_COMPRESS" in hirq.render(n["then"]):
+                st = next(a for a in ats if "compressed" in a)
+                og = next(a for a in ats if a != st)
+                tt = cmpeval.truth_table(n["c"], st, og)
+                if tt == {"lt": True, "eq": False, "gt": False}:
+                    ctx.ok(R_cflag, {"cond": hirq.render(n["c"]), "table": tt})
+                else:
+                    ctx.bad(R_cflag, "prepare_file_data|flag", "%s:%d" % (pf.file, n["ln"]), "FLAG_COMPRESS set under `%s` with table %s" % (hirq.render(n["c"]), tt),
+                            "incompressible data (compress() returned the input) is flagged compressed while stored raw: with encryption padding the reader decompresses raw bytes and the added file is unreadable")
+
     # dirty on success (MIR)
     mut_adt = "wow_mpq::modification::MutableArchive"
     dirty_idx = rules.field_index(mpq, mut_adt, "dirty")
